@@ -13,28 +13,41 @@ import itertools, os, json, time
 from concurrent.futures import ThreadPoolExecutor
 from vlib import *
 
-KINDS = "J0 JC JR JF JCF JRF FC RFE RFN CT XFE XFN PX GT FO DY RP PR".split()
-JS_KINDS = {"J0", "JC", "JR", "JF", "JCF", "JRF"}
-SWALLOW = {"JC", "JCF"}
-RETHROW = {"JR", "JRF"}
+KINDS = "J0 JC JR JF JCF JRF FC RFE RFN CT XFE XFN PX GT FO DY RP PR FCV RFW JI JG JGF JA JAW".split()
+JS_KINDS = {"J0", "JC", "JR", "JF", "JCF", "JRF", "JI", "JG", "JGF", "JA", "JAW"}
+SWALLOW = {"JC", "JCF", "JA"}         # JA: an async function absorbs the exception into its promise
+RETHROW = {"JR", "JRF", "FCV"}        # new *Exception (new stack), same value
+REWRAP = {"RFW"}                      # value replaced by a GoError around fmt.Errorf("%w", err)
+SPLIT = {"PR", "JAW"}                 # the rest of the chain runs as a promise job
 ENTRIES = ["RS", "CA", "EX"]
-VALS = "P1 P2 P3 P4 O1 R1 R2 R3 G1 G3 G4 G6 V1 V2".split()
+VALS = "P1 P2 P3 P4 O1 R1 R2 R3 G1 G3 G4 G6 V1 V2 U1 U2".split()
 ERRS = "E1 C2 W3 J4 I5 WI6 JI7 S8 WS12".split()
 PAYLOADS = (["jt:" + v for v in VALS] + ["js:" + k for k in "TRGS"] + ["ji", "jo"] +
-            ["np:" + v for v in "P1 O1 R1 G1 V1".split()] + ["npn", "nr:N0"] + ["nr:" + e for e in ERRS] +
+            ["np:" + v for v in "P1 O1 R1 G1 V1 U1".split()] + ["npn", "nr:N0"] + ["nr:" + e for e in ERRS] +
             ["nq:" + e for e in "E1 W3 WI6 I5 JI7".split()] + ["no", "nx"])
 # one representative per behaviour class, used where the chain space is enumerated exhaustively at depth 4
 REP_PAYLOADS = ["jt:P1", "jt:O1", "jt:R1", "jt:G3", "jt:V1", "js:T", "ji", "jo", "np:O1", "nr:J4", "nr:WI6", "nq:E1", "no"]
 
-QUICK_REP = ["jt:O1", "jt:G3", "js:T", "ji", "nr:J4", "no"]
-THOROUGH_REP = ["jt:O1", "jt:R1", "jt:G3", "js:T", "ji", "nr:J4", "no"]
+QUICK_REP = ["jt:O1", "jt:G3", "ji", "nr:J4"]
+THOROUGH_REP = ["jt:O1", "ji", "nr:J4"]
 
 GOVAL = {"G1": "E1", "G3": "W3", "G4": "J4", "G6": "WI6", "V1": "E1"}       # JS values holding a Go error in .value
 IS_BITS = {"E1": "1000000000", "C2": "0100000000", "W3": "0110000000", "J4": "1101000000", "I5": "0000100000",
            "WI6": "0000110000", "JI7": "1000101000", "S8": "0000000100", "WS12": "0000000101"}
 AS_OF = {"C2": "C2", "W3": "C2", "J4": "C2"}
-UNCATCHABLE_CODE = {"I5", "WI6", "S8", "WS12"}          # what isUncatchableException (errors.Unwrap loop) recognises
-UNCATCHABLE_SPEC = UNCATCHABLE_CODE | {"JI7"}           # what the property text demands (any wrapping form)
+UNCATCHABLE_SPEC = {"I5", "WI6", "S8", "WS12", "JI7"}   # any wrapping form (%w, errors.Join) around an Interrupted/StackOverflow error
+UNCATCHABLE_CODE = UNCATCHABLE_SPEC                     # since fix cbcbe34 isUncatchableException uses errors.As
+
+
+def peel(name):
+    """strip the in-flight fmt.Errorf wrappers an RFW frame adds: w(w(X)) -> X"""
+    while name.startswith("w(") and name.endswith(")"):
+        name = name[2:-1]
+    return name
+
+
+def bits_ge(a, b):
+    return len(a) == len(b) and all(x == "1" or y == "0" for x, y in zip(a, b))
 
 
 def parse_out(o):
@@ -47,6 +60,8 @@ def parse_out(o):
     d["logl"] = [x for x in log.split(";") if x]
     rej = d.get("rej", "[]")[1:-1]
     d["rejl"] = [x for x in rej.split(",") if x]
+    xc = d.get("xc", "-")
+    d["xcl"] = [x for x in xc[1:-1].split(",") if x] if xc.startswith("[") else []
     return d
 
 
@@ -60,40 +75,57 @@ def spec_oracle(line, out):
     bad = []
     host = d.get("host", "")
     kind, _, arg = payload.partition(":")
-    has_pr = "PR" in chain
-    last_pr = max([i for i, k in enumerate(chain) if k == "PR"], default=-1)
+    has_pr = any(k in SPLIT for k in chain)
+    last_pr = max([i for i, k in enumerate(chain) if k in SPLIT], default=-1)
     swallow = any(k in SWALLOW for k in chain)
+    rewrap = any(k in REWRAP for k in chain)
     catches = [(int(x.split("c=")[0]), x.split("c=")[1]) for x in d["logl"] if "c=" in x]
-    fins = [int(x[:-1]) for x in d["logl"] if x.endswith("f")]
+    fins = [int(x[:-1]) for x in d["logl"] if x.endswith("f") and "=" not in x]
+    rets = [int(x[:-1]) for x in d["logl"] if x.endswith("r") and "=" not in x]
+    hostname = host[4:-1] if host.startswith(("exc(", "err(")) else host
+
+    # error.Error() must return, whatever was thrown
+    if d.get("es") == "panic":
+        bad.append(("error-method:panics", "host=%s: calling Error() on it panics" % host))
 
     def unobserved(why):
-        # no catch block at all, and no finally block of the throwing segment (frames after the last PR)
+        # no catch block at all, and no finally block / iterator return() of the throwing segment (frames after the last job frame)
         if catches:
             bad.append((why + ":catch-observed", str(catches[:3])))
         if any(i > last_pr for i in fins):
             bad.append((why + ":finally-observed", str(fins[:5])))
+        if any(i > last_pr for i in rets):
+            bad.append((why + ":iterator-return-observed", str(rets[:5])))
 
     if kind in ("jt", "np"):
         v = arg
         unwrap_possible = v in GOVAL and ("XFE" in chain or entry == "EX")
         if not unwrap_possible:
-            # identity: every catch block received v itself; host sees Exception with Value() = v unless swallowed
-            for i, w in catches:
-                if w != v:
-                    bad.append(("identity:catch-got-other-value", "%d got %s want %s" % (i, w, v)))
+            if not rewrap:
+                # identity: every catch block / async rejection received v itself
+                for i, w in catches:
+                    if w != v:
+                        bad.append(("identity:catch-got-other-value", "%d got %s want %s" % (i, w, v)))
+                for w in d["rejl"]:
+                    if w != v:
+                        bad.append(("identity:rejection-value", "rej=%s want %s" % (d["rejl"], v)))
             if not swallow:
-                if not has_pr and host != "exc(%s)" % v:
-                    bad.append(("identity:host-value", "host=%s want exc(%s)" % (host, v)))
-                if has_pr and (host != "ok" or d["rejl"] != [v]):
+                if not has_pr:
+                    if not rewrap and host != "exc(%s)" % v:
+                        bad.append(("identity:host-value", "host=%s want exc(%s)" % (host, v)))
+                    # with wrapping native frames the *Exception with Value() = v is still reached by errors.Unwrap
+                    if v not in d["xcl"]:
+                        bad.append(("identity:value-not-reachable", "host=%s xc=%s want %s" % (host, d["xcl"], v)))
+                if has_pr and not rewrap and (host != "ok" or d["rejl"] != [v]):
                     bad.append(("identity:rejection-value", "host=%s rej=%s want [%s]" % (host, d["rejl"], v)))
         elif not swallow and not has_pr:
             e = GOVAL[v]
             if v != "V1" and e not in UNCATCHABLE_SPEC:
                 # a GoError keeps its Go error reachable whatever wrapper object arrives
-                if d.get("is") != IS_BITS[e]:
+                if not bits_ge(d.get("is", ""), IS_BITS[e]) or (not rewrap and d.get("is") != IS_BITS[e]):
                     bad.append(("goerror:errors.Is", "host=%s is=%s want %s" % (host, d.get("is"), IS_BITS[e])))
         # stack top = throw site, for script throws of non-Error values that nobody re-throws
-        if kind == "jt" and v[0] in "POVG" and not unwrap_possible and not swallow and not has_pr \
+        if kind == "jt" and v[0] in "POVGU" and not unwrap_possible and not swallow and not has_pr and not rewrap \
                 and not any(k in RETHROW for k in chain):
             if d.get("top") != "T":
                 bad.append(("stack:top-not-throw-site", "top=%s" % d.get("top")))
@@ -101,14 +133,14 @@ def spec_oracle(line, out):
         e = arg
         if e in UNCATCHABLE_SPEC:
             unobserved("uncatchable")
-            if e in UNCATCHABLE_CODE and host != "err(%s)" % e:
+            if not (host.startswith("err(") and peel(hostname) == e):
                 bad.append(("uncatchable:host-error", "host=%s want err(%s)" % (host, e)))
         elif not swallow and not has_pr:
-            if not (host == "exc(ge(%s))" % e or host == "err(%s)" % e):
+            if not rewrap and not (host == "exc(ge(%s))" % e or host == "err(%s)" % e):
                 bad.append(("goerror:host-shape", "host=%s" % host))
-            if d.get("is") != IS_BITS[e] or d.get("as") != AS_OF.get(e, "-"):
+            if not bits_ge(d.get("is", ""), IS_BITS[e]) or (not rewrap and (d.get("is") != IS_BITS[e] or d.get("as") != AS_OF.get(e, "-"))):
                 bad.append(("goerror:errors.Is/As", "is=%s as=%s want %s %s" % (d.get("is"), d.get("as"), IS_BITS[e], AS_OF.get(e, "-"))))
-        elif not swallow and has_pr:
+        elif not swallow and has_pr and not rewrap:
             if host != "ok" or d["rejl"] != ["ge(%s)" % e]:
                 bad.append(("goerror:rejection", "host=%s rej=%s" % (host, d["rejl"])))
     elif kind == "nr" and arg == "N0":
@@ -116,16 +148,16 @@ def spec_oracle(line, out):
             bad.append(("normal-return", "host=%s" % host))
     elif kind in ("ji", "jo"):
         unobserved("uncatchable")
-        want = "err(intr(E9))" if kind == "ji" else "err(so)"
-        if host != want:
-            bad.append(("uncatchable:host-error", "host=%s want %s" % (host, want)))
+        want = "intr(E9)" if kind == "ji" else "so"
+        if not (host.startswith("err(") and peel(hostname) == want):
+            bad.append(("uncatchable:host-error", "host=%s want err(%s)" % (host, want)))
         if kind == "ji" and d.get("is") != "0000000010":
             bad.append(("uncatchable:interrupt-value-unwrap", "is=%s" % d.get("is")))
     elif kind == "nq":
         e = arg
         if e in UNCATCHABLE_CODE:
             unobserved("uncatchable")
-            if host != "err(%s)" % e:
+            if not (host.startswith("err(") and peel(hostname) == e):
                 bad.append(("uncatchable:host-error", "host=%s want err(%s)" % (host, e)))
         else:
             unobserved("foreign")
@@ -139,15 +171,15 @@ def spec_oracle(line, out):
     elif kind == "js":
         cls = {"T": "TypeError", "R": "ReferenceError", "G": "RangeError", "S": "SyntaxError"}[arg]
         for i, w in catches:
-            if w != "new:" + cls:
+            if w != "new:" + cls and not rewrap:
                 bad.append(("sentinel:catch-class", "%d got %s" % (i, w)))
-        if not swallow:
+        if not swallow and not rewrap:
             if not has_pr and host != "exc(new:%s)" % cls:
                 bad.append(("sentinel:host-class", "host=%s" % host))
             if has_pr and d["rejl"] != ["new:" + cls]:
                 bad.append(("sentinel:rejection", "rej=%s" % d["rejl"]))
     elif kind == "npn":
-        if not swallow and not has_pr and host != "exc(new:TypeError)":
+        if not swallow and not has_pr and not rewrap and host != "exc(new:TypeError)":
             bad.append(("native-typeerror:host", "host=%s" % host))
     return bad
 
@@ -187,9 +219,10 @@ def gen_cases(ctx):
     if ctx.tier == "quick":
         exhaustive(range(0, 3), ENTRIES, PAYLOADS, "exhaustive depth<=2 x 3 entries x %d payloads" % len(PAYLOADS))
         exhaustive([3], ["RS"], QUICK_REP, "exhaustive depth=3 x RS x %d representative payloads" % len(QUICK_REP))
-        sampled(25000, 4, 8, "sampled depth 4..8 (all entries, all payloads)")
+        sampled(15000, 4, 8, "sampled depth 4..8 (all entries, all payloads)")
     else:
-        exhaustive(range(0, 4), ENTRIES, PAYLOADS, "exhaustive depth<=3 x 3 entries x %d payloads" % len(PAYLOADS))
+        exhaustive(range(0, 3), ENTRIES, PAYLOADS, "exhaustive depth<=2 x 3 entries x %d payloads" % len(PAYLOADS))
+        exhaustive([3], ["RS"], PAYLOADS, "exhaustive depth=3 x RS x %d payloads" % len(PAYLOADS))
         exhaustive([4], ["RS"], THOROUGH_REP, "exhaustive depth=4 x RS x %d representative payloads" % len(THOROUGH_REP))
         sampled(150000, 5, 8, "sampled depth 5..8 (all entries, all payloads)")
     return itertools.chain(*parts), plan
@@ -276,8 +309,8 @@ def main(ctx):
     ctx.log("regenerated facts:", regen_ok)
     lean_ok, errs = ctx.lake_build(["GojaModel.C14.Props", "GojaModel.C14.Tie", "model_c14"])
     if lean_ok:
-        ctx.audit("GojaModel.C14.Props", expect_min=16)
-        ctx.audit("GojaModel.C14.Tie", expect_min=30)
+        ctx.audit("GojaModel.C14.Props", expect_min=19)
+        ctx.audit("GojaModel.C14.Tie", expect_min=40)
         if ctx.tier == "thorough":
             ctx.leanchecker("GojaModel.C14.Props")
     ctx.log("lean build + audit done:", lean_ok)
@@ -380,9 +413,9 @@ def main(ctx):
     ctx.stats.update({"host_outcomes": hosts, "payloads": payload_kinds, "depths": depth_hist, "frame_kinds": frame_hist,
                       "cases_with_catch_log": n_catch, "cases_with_finally_log": n_fin, "cases_with_rejection": n_rej})
 
-    # known finding: an uncatchable error inside errors.Join is an ordinary (catchable) Go error for goja
-    KNOWN = {"uncatchable:catch-observed:nr:JI7": "joined-uncatchable-is-catchable",
-             "uncatchable:finally-observed:nr:JI7": "joined-uncatchable-is-catchable"}
+    # known finding: Exception.Error() panics when the thrown object cannot be converted to a string
+    KNOWN_CLAUSES = {"error-method:panics": "error-method-panics-on-unstringifiable-value"}
+    KNOWN = {sig: KNOWN_CLAUSES[h[0][3]] for sig, h in by_sig.items() if h and h[0][3] in KNOWN_CLAUSES}
     # (a reproduced known finding is reported by ctx.violation as KNOWN-FINDING, it is not a broken obligation)
     ctx.obligation("oracle:property-holds-on-all-implementation-answers", "correspondence",
                    all(ctx.known_signature(KNOWN.get(s, s)) is not None for s in by_sig),
